@@ -460,6 +460,47 @@ func registerIntrinsics(e *Engine) {
 		p.stub("time.Now")
 		return nil, false
 	}
+	// time.Date with a symbolic field: an uninterpreted function of its seven
+	// integer arguments (functional consistency between the calls on a path),
+	// so that two computations agree iff they hand time.Date the same fields.
+	// With all fields concrete the real code runs.
+	in["time.Date"] = func(p *Path, _ *frame, fn *ssa.Function, a []value) (value, bool) {
+		args := make([]*Term, 7)
+		allConcrete := true
+		for i := 0; i < 7; i++ {
+			t, ok := a[i].(*Term)
+			if !ok {
+				return nil, false
+			}
+			args[i] = t
+			if t.Op != OConst {
+				allConcrete = false
+			}
+		}
+		if allConcrete {
+			return nil, false
+		}
+		p.stub("time.Date (uninterpreted function of its fields when a field is symbolic)")
+		wall := p.ufBV("time.Date.wall", args)
+		ext := p.ufBV("time.Date.ext", args)
+		// no monotonic reading: the top bit of wall is clear, as for every Date result
+		p.assume(p.tc.Eq(p.tc.Extract(wall, 63, 63), Const(BV(1), 0)))
+		return structure{wall, ext, a[7]}, true
+	}
+	// the instant of a Time built by the stub above, as an uninterpreted function of it
+	in["(time.Time).UnixMilli"] = func(p *Path, _ *frame, fn *ssa.Function, a []value) (value, bool) {
+		st, ok := a[0].(structure)
+		if !ok || len(st) < 2 {
+			return nil, false
+		}
+		w, ok1 := st[0].(*Term)
+		e, ok2 := st[1].(*Term)
+		if !ok1 || !ok2 || (w.Op == OConst && e.Op == OConst) {
+			return nil, false
+		}
+		p.stub("(time.Time).UnixMilli (uninterpreted function of a symbolic Time)")
+		return p.ufBV("time.Time.UnixMilli", []*Term{w, e}), true
+	}
 	in["time.now"] = func(p *Path, _ *frame, fn *ssa.Function, a []value) (value, bool) {
 		p.stub("time.now")
 		return tuple{ConstInt(64, 1700000000), ConstInt(32, 0), ConstInt(64, 1)}, true
@@ -524,6 +565,29 @@ func (p *Path) ufF64(name string, arg *Term) *Term {
 	}
 	p.ufCalls[name] = append(p.ufCalls[name], [2]*Term{arg, res})
 	return res
+}
+
+// ufBV: an unknown but deterministic 64-bit function of integer arguments.
+func (p *Path) ufBV(name string, args []*Term) *Term {
+	if p.ufCallsN == nil {
+		p.ufCallsN = map[string][]ufCall{}
+	}
+	tc := &p.tc
+	res := tc.Var(BV(64), name)
+	for _, c := range p.ufCallsN[name] {
+		same := tTrue
+		for i := range args {
+			same = tc.And(same, tc.Eq(args[i], c.args[i]))
+		}
+		p.assume(tc.Or(tc.Not(same), tc.Eq(res, c.res)))
+	}
+	p.ufCallsN[name] = append(p.ufCallsN[name], ufCall{args, res})
+	return res
+}
+
+type ufCall struct {
+	args []*Term
+	res  *Term
 }
 
 func (p *Path) havocF64(name string) *Term {
